@@ -11,10 +11,22 @@ package secp256k1
 
 //@ func PublicKey.SerializeUncompressed
 //@   trusted
-//@   pure
 //@   ensures len(result) == 65 && cap(result) == 65 && fresh(result)
 
 //@ func PublicKey.SerializeCompressed
 //@   trusted
-//@   pure
 //@   ensures len(result) == 33 && cap(result) == 33 && fresh(result)
+
+// Scalars modulo the group order: abstract (the field arithmetic is the
+// library's).  SetByteSlice overwrites the receiver only; IsZero reads only.
+//@ func ModNScalar.SetByteSlice
+//@   trusted
+//@   modifies s.*
+
+//@ func ModNScalar.IsZero
+//@   trusted
+//@   pure
+
+//@ func ModNScalar.IsOverHalfOrder
+//@   trusted
+//@   pure
